@@ -9,6 +9,7 @@ package verifrt
 import (
 	"encoding/json"
 	"fmt"
+	"math/rand"
 	"os"
 	"regexp"
 	"runtime"
@@ -375,8 +376,42 @@ func (w *FifoWriter) Write(b string) {
 
 func (w *FifoWriter) Close() { _ = w.f.Close() }
 
+// Yield is a schedule point of the harness (natively: a randomised yield, so that repeated
+// replays visit different interleavings).
+func Yield() {
+	switch rand.Intn(3) {
+	case 0:
+		runtime.Gosched()
+	case 1:
+		time.Sleep(time.Duration(rand.Intn(200)) * time.Microsecond)
+	}
+}
+
 // Quiesce returns once every other goroutine of the harness is blocked (natively: after a pause).
-func Quiesce() { time.Sleep(150 * time.Millisecond) }
+// The native pause ends when the process has consumed (almost) no CPU time for three consecutive
+// 60 ms intervals - every goroutine is parked - or after 10 s; a fixed sleep is too short on a busy machine.
+func Quiesce() {
+	cpu := func() time.Duration {
+		var ru syscall.Rusage
+		if err := syscall.Getrusage(syscall.RUSAGE_SELF, &ru); err != nil {
+			return 0
+		}
+		return time.Duration(ru.Utime.Nano() + ru.Stime.Nano())
+	}
+	deadline := time.Now().Add(10 * time.Second)
+	quiet := 0
+	last := cpu()
+	for quiet < 3 && time.Now().Before(deadline) {
+		time.Sleep(60 * time.Millisecond)
+		now := cpu()
+		if now-last < 1500*time.Microsecond {
+			quiet++
+		} else {
+			quiet = 0
+		}
+		last = now
+	}
+}
 
 // LoadFile points the native runtime at another replay file and rewinds it.
 func LoadFile(path string) {
